@@ -84,9 +84,14 @@ def one_run(run, graph, seed, cipher, hashing):
                 needles.setdefault('file content or name', set()).update(forms(part))
         note = canary('note').decode()
         needles['note'] = forms(note.encode())
+        empty = s.write_file('only-empty-%s' % canary('ename').decode()[-8:], b'')
         for u in s.users:
             s.snapshot(u, files, note=note)
+            s.snapshot(u, files, note=note)                 # unchanged data again, from a fresh process: same number of chunks
+            s.snapshot(u, [empty])                           # no chunk at all: the private part is the first ciphertext of the process
+            s.snapshot(u, [empty], note=note)
             files[0] = s.write_file('extra-%s.bin' % canary('xname').decode()[-10:], canary('xcontent') + rng.randbytes(120))
+            s.snapshot(u, files[:1])
         s.delete(s.users[0], s.readable(s.users[0])[:1])
         s.clean(s.users[0])
         s.sync_defs()
